@@ -337,19 +337,90 @@ fn c03_conn(input: &Input, obs: &mut Obs) -> Result<(), Fail> {
     Ok(())
 }
 
+/// every way of gluing a request line, a header line and a tail together with runs of CR and LF:
+/// params = [template, separator 1]; separators are all strings over {CR, LF} of length 0..4
+/// (the second separator runs over all 31 inside the case). Every entry point, and a connection
+/// fed the bytes (whole, then byte by byte).
+fn c03_glue(input: &Input, obs: &mut Obs) -> Result<(), Fail> {
+    let p = input.params();
+    let seps: Vec<Vec<u8>> = {
+        let mut v: Vec<Vec<u8>> = vec![vec![]];
+        let mut layer: Vec<Vec<u8>> = vec![vec![]];
+        for _ in 0..4 {
+            let mut next = Vec::new();
+            for x in &layer {
+                for c in [b'\r', b'\n'] {
+                    let mut y = x.clone();
+                    y.push(c);
+                    next.push(y);
+                }
+            }
+            v.extend(next.iter().cloned());
+            layer = next;
+        }
+        v
+    };
+    const RLS: [&[u8]; 5] = [b"GET / HTTP/1.1", b"PUT /x HTTP/1.0", b"PATCH /a/b HTTP/1.1", b"GET /", b""];
+    const HLS: [&[u8]; 5] = [b"Content-Length: 2", b"X-A: b", b"Expect: 100-continue", b":", b""];
+    const TAILS: [&[u8]; 3] = [b"", b"ab", b"GET /n HTTP/1.1\r\n\r\n"];
+    let t = p[0] as usize;
+    let (rl, hl, tail) = (RLS[t % 5], HLS[(t / 5) % 5], TAILS[(t / 25) % 3]);
+    let mut cnt = 0u64;
+    for s2 in seps.iter() {
+        let mut b = rl.to_vec();
+        b.extend_from_slice(&seps[p[1] as usize]);
+        b.extend_from_slice(hl);
+        b.extend_from_slice(s2);
+        b.extend_from_slice(tail);
+        let mut o = Obs::default();
+        c03_entry_points(&b, &mut o)?;
+        for whole in [true, false] {
+            let mut run = ConnRun::new(b.clone(), None, true);
+            let mut guardn = 0;
+            while run.remaining() > 0 && guardn < 200 {
+                guardn += 1;
+                let st = run.read(ReadEv::Data { want: if whole { 1024 } else { 1 }, fds: vec![] }).map_err(|m| Fail::new("C03:stream-misuse", m))?.clone();
+                if let RRes::Panic(m) = &st.res {
+                    return Err(Fail::new("C03:panic:HttpConnection::try_read", format!("HttpConnection::try_read panicked on \"{}\" ({}): {}", esc(&b), if whole { "whole" } else { "byte by byte" }, m)));
+                }
+            }
+        }
+        cnt += 1;
+    }
+    obs.extra_evals = cnt.saturating_sub(1);
+    obs.extra_nontrivial = cnt;
+    if obs.want_render {
+        obs.render = format!("template {} with separator #{} x all 31 second separators", t, p[1]);
+    }
+    Ok(())
+}
+
+fn c03_glue_enum(_tier: Tier, shard: u64, nshards: u64, f: &mut dyn FnMut(&[u64]) -> bool) {
+    let mut c = 0u64;
+    for t in 0..75u64 {
+        for s1 in 0..31u64 {
+            c += 1;
+            if c % nshards == shard && !f(&[t, s1]) {
+                return;
+            }
+        }
+    }
+}
+
 fn c03_plan(tier: Tier) -> Vec<Job> {
     let q = tier == Tier::Quick;
     vec![
         Job { sub: "entry", kind: JobKind::Pbt { cases: if q { 120_000 } else { 3_000_000 }, max_len: 700 }, smallbuf: false },
         Job { sub: "conn", kind: JobKind::Pbt { cases: if q { 120_000 } else { 3_000_000 }, max_len: 1200 }, smallbuf: false },
         Job { sub: "conn", kind: JobKind::Pbt { cases: if q { 60_000 } else { 1_000_000 }, max_len: 900 }, smallbuf: true },
+        Job { sub: "glue", kind: JobKind::Enum { f: c03_glue_enum, bound: "5 request lines x 5 header lines x 3 tails, glued with every pair of CR/LF runs of length 0..4 (31 x 31), through every entry point and a connection (whole and byte by byte)" }, smallbuf: false },
     ]
 }
 
 pub fn c03() -> PropDef {
     PropDef {
         id: "C03",
-        subs: vec![("entry", c03_entry), ("conn", c03_conn), ("raw", crate::props::raw::c03_raw)],
+        subs: vec![("entry", c03_entry), ("conn", c03_conn), ("raw", crate::props::raw::c03_raw), ("glue", c03_glue)],
         plan: c03_plan,
         rule: "case = byte string (grammar-derived then mutated by bit flips/splices/NUL-CR-LF-0x80-0xFF injection/truncation, raw, header-like, or up to ~60 KiB) given to every public parsing entry point, or a connection driven by a generated call sequence (reads of any size, EAGAIN/EINTR/ECONNRESET/EOF, try_write under every stream behaviour, enqueue, clear, pop) that continues after every error; oracle = catch_unwind around every call (overflow checks and debug assertions on) + stream call counters (<=1 receive per try_read, <=1 write per try_write, 0 otherwise) + watchdog for non-termination; non-trivial = the input gets past the request line / header block accepted, or the sequence continues after >=1 error",
         assumptions: vec!["a hang is reported only after the case failed to finish within 30 s in the worker and again within 60 s alone in a fresh process"],
